@@ -1397,6 +1397,9 @@ func (x *Exec) assumeInvariant(st *State, fr *Frame, lr *loopRun) {
 
 // applyContract: call by contract.
 func (x *Exec) applyContract(st *State, fr *Frame, ci *callInfo, fn *ssa.Function, spec *FuncSpec, args []Val, k func(*State, *Frame, Val)) {
+	if spec.Assumed {
+		x.e.note("ASSUMED (unverified) contract of the repository function " + spec.Name + ": it wraps an external service")
+	}
 	callee := &Frame{fn: fn, env: map[ssa.Value]Val{}, args: args, spec: spec}
 	for i, p := range fn.Params {
 		callee.env[p] = args[i]
